@@ -45,6 +45,10 @@ type SynDiag struct {
 	Message string `json:"message"`
 	Level   int    `json:"level"`
 	Note    string `json:"note,omitempty"`
+	SnipMsg string `json:"snippet_message,omitempty"` // text on the primary snippet
+	Sec     int    `json:"secondary,omitempty"`       // >0: a secondary snippet starting at Sec-1 in the same file
+	SecMsg  string `json:"secondary_message,omitempty"`
+	Help    string `json:"help,omitempty"`
 }
 
 func genC36(t *rapid.T) C36Case {
@@ -75,6 +79,12 @@ func genC36(t *rapid.T) C36Case {
 			Note:    []string{"", "n1", "n2"}[rapid.IntRange(0, 2).Draw(t, "snote")],
 		}
 		d.End = d.Start + rapid.IntRange(0, 2).Draw(t, "slen")
+		d.SnipMsg = []string{"", "", "s1", "s2"}[rapid.IntRange(0, 3).Draw(t, "ssnip")]
+		if d.File >= 0 && rapid.IntRange(0, 2).Draw(t, "ssec") == 0 {
+			d.Sec = 1 + rapid.IntRange(4, 6).Draw(t, "ssecAt")
+			d.SecMsg = []string{"", "x1", "x2"}[rapid.IntRange(0, 2).Draw(t, "ssecMsg")]
+		}
+		d.Help = []string{"", "", "h1"}[rapid.IntRange(0, 2).Draw(t, "shelp")]
 		if d.File < 0 {
 			d.InFile = []string{"a.proto", "b.proto"}[rapid.IntRange(0, 1).Draw(t, "sinfile")]
 		}
@@ -97,7 +107,14 @@ func buildSynth(ds []SynDiag, order []int) *report.Report {
 			diag = r.Warnf("%s", d.Message)
 		}
 		if d.File >= 0 {
-			diag.Apply(report.Snippet(synFiles[d.File].Span(d.Start, d.End)))
+			if d.SnipMsg != "" {
+				diag.Apply(report.Snippetf(synFiles[d.File].Span(d.Start, d.End), "%s", d.SnipMsg))
+			} else {
+				diag.Apply(report.Snippet(synFiles[d.File].Span(d.Start, d.End)))
+			}
+			if d.Sec > 0 {
+				diag.Apply(report.Snippetf(synFiles[d.File].Span(d.Sec-1, d.Sec), "%s", d.SecMsg))
+			}
 		} else {
 			diag.Apply(report.InFile(d.InFile))
 		}
@@ -106,6 +123,9 @@ func buildSynth(ds []SynDiag, order []int) *report.Report {
 		}
 		if d.Note != "" {
 			diag.Apply(report.Notef("%s", d.Note))
+		}
+		if d.Help != "" {
+			diag.Apply(report.Helpf("%s", d.Help))
 		}
 	}
 	return r
